@@ -1696,6 +1696,10 @@ pub struct ConnectionH2<Front: SocketHandler> {
     /// were queued in the zero buffer while a stream frame was partly on the
     /// wire; they are flushed once that frame is complete.
     pub zero_write_deferred: bool,
+    /// Already framed octets of a stream that was torn down (RST_STREAM, ...)
+    /// while one of its frames was partly on the wire. They complete that
+    /// frame: `writable` sends them before any other octet.
+    pub orphan_out: Vec<u8>,
     pub last_stream_id: StreamId,
     pub local_settings: H2Settings,
     pub peer_settings: H2Settings,
@@ -1915,6 +1919,7 @@ impl<Front: SocketHandler> ConnectionH2<Front> {
             expect_read,
             expect_write: None,
             zero_write_deferred: false,
+            orphan_out: Vec::new(),
             last_stream_id: 0,
             local_settings,
             peer_settings: H2Settings::default(),
@@ -2362,7 +2367,9 @@ impl<Front: SocketHandler> ConnectionH2<Front> {
                     // through `remove_dead_stream` so the expect_write/read
                     // invariant (§LIFECYCLE.md 5.4) holds on this path too.
                     if let Some(global_stream_id) = self.streams.get(&stream_id).copied() {
-                        self.remove_dead_stream(stream_id, global_stream_id);
+                        // its header block is still arriving: nothing was ever
+                        // written for this stream
+                        self.forget_stream(stream_id, global_stream_id);
                     }
                     return self.refuse_stream_and_discard(
                         stream_id,
@@ -2824,7 +2831,7 @@ impl<Front: SocketHandler> ConnectionH2<Front> {
                     // Otherwise session close can observe a stale `Recycle`
                     // entry in self.streams and mis-handle the connection as
                     // if it still had an active H2 stream.
-                    self.remove_dead_stream(dead_id, global_stream_id);
+                    self.remove_dead_stream(dead_id, global_stream_id, context);
                     if let Some(token) = token {
                         remove_backend_stream(
                             &mut context.backend_streams,
@@ -3276,7 +3283,7 @@ impl<Front: SocketHandler> ConnectionH2<Front> {
             // H2 maps inline. Retire the recycled stream immediately after the
             // converter borrow ends, before endpoint.end_stream() can trigger
             // teardown and observe a stale `Recycle` entry in self.streams.
-            self.remove_dead_stream(dead_id, global_stream_id);
+            self.remove_dead_stream(dead_id, global_stream_id, context);
             close_frontend_after_completed_stream |= close_frontend;
             if let Some(token) = token {
                 remove_backend_stream(&mut context.backend_streams, token, global_stream_id);
@@ -3404,7 +3411,38 @@ impl<Front: SocketHandler> ConnectionH2<Front> {
     /// growth on long-lived connections with many cancelled streams. The
     /// `debug_assert`s below fail loudly in test builds if someone adds a
     /// new per-stream cache without updating this function.
-    fn remove_dead_stream(&mut self, stream_id: StreamId, global_stream_id: GlobalStreamId) {
+    fn remove_dead_stream<L>(
+        &mut self,
+        stream_id: StreamId,
+        global_stream_id: GlobalStreamId,
+        context: &mut Context<L>,
+    ) where
+        L: ListenerHandler + L7ListenerHandler,
+    {
+        // A frame of this stream may be partly on the wire (`expect_write`
+        // names it): what was already framed for it must still go out, or the
+        // peer reads the next frame we send as the rest of that frame's
+        // payload. The slot is about to be recycled, so keep those octets
+        // here; `writable` sends them before anything else.
+        if matches!(self.expect_write, Some(H2StreamId::Other { gid, .. }) if gid == global_stream_id)
+        {
+            let kawa = context.streams[global_stream_id]
+                .split(&self.position)
+                .wbuffer;
+            let buffer = kawa.storage.buffer();
+            for block in kawa.out.iter() {
+                match block {
+                    kawa::OutBlock::Delimiter => break,
+                    kawa::OutBlock::Store(store) => {
+                        self.orphan_out.extend_from_slice(store.data(buffer));
+                    }
+                }
+            }
+        }
+        self.forget_stream(stream_id, global_stream_id);
+    }
+
+    fn forget_stream(&mut self, stream_id: StreamId, global_stream_id: GlobalStreamId) {
         if self.streams.remove(&stream_id).is_none() {
             error!(
                 "{} dead stream_id {} missing from streams map",
@@ -3478,7 +3516,7 @@ impl<Front: SocketHandler> ConnectionH2<Front> {
                 stream.metrics.reset();
                 stream.state = StreamState::Recycle;
             }
-            self.remove_dead_stream(stream_id, global_stream_id);
+            self.remove_dead_stream(stream_id, global_stream_id, context);
         }
     }
 
@@ -3733,6 +3771,13 @@ impl<Front: SocketHandler> ConnectionH2<Front> {
         L: ListenerHandler + L7ListenerHandler,
     {
         self.prune_inactive_streams_while_closing(context);
+
+        // The rest of a frame whose stream is gone completes what is on the
+        // wire: nothing may be written before it.
+        if self.flush_orphan_to_socket() {
+            self.ensure_tls_flushed();
+            return MuxResult::Continue;
+        }
 
         if let Some(result) = self.flush_pending_control_frames() {
             return result;
@@ -4321,7 +4366,7 @@ impl<Front: SocketHandler> ConnectionH2<Front> {
                 }
                 // Retire sid from streams/prioriser/stream_last_activity_at and
                 // invalidate expect_write/expect_read if they reference this gid.
-                self.remove_dead_stream(sid, global_stream_id);
+                self.remove_dead_stream(sid, global_stream_id, context);
             }
         }
         // Writable arming is already done by enqueue_rst -> arm_writable in
@@ -4749,6 +4794,7 @@ impl<Front: SocketHandler> ConnectionH2<Front> {
             return false;
         }
         self.expect_write.is_some()
+            || !self.orphan_out.is_empty()
             || !self.zero.storage.is_empty()
             || self.socket.socket_wants_write()
     }
@@ -4795,6 +4841,21 @@ impl<Front: SocketHandler> ConnectionH2<Front> {
         }
     }
 
+    /// Write the octets kept by `remove_dead_stream`. Returns `true` if the
+    /// socket stalled before they were all written.
+    fn flush_orphan_to_socket(&mut self) -> bool {
+        while !self.orphan_out.is_empty() {
+            let (size, status) = self.socket.socket_write(&self.orphan_out);
+            self.orphan_out.drain(..size);
+            self.position.count_bytes_out_counter(size);
+            self.bytes.overhead_bout += size;
+            if update_readiness_after_write(size, status, &mut self.readiness) {
+                return true;
+            }
+        }
+        false
+    }
+
     fn flush_zero_to_socket(&mut self) -> bool {
         while !self.zero.storage.is_empty() {
             let (size, status) = self.socket.socket_write(self.zero.storage.data());
@@ -4823,7 +4884,7 @@ impl<Front: SocketHandler> ConnectionH2<Front> {
     /// the full writable() path. Used during shutdown when the event loop
     /// won't deliver new epoll events for this session (edge-triggered).
     pub fn flush_zero_buffer(&mut self) {
-        if self.flush_zero_to_socket() {
+        if self.flush_orphan_to_socket() || self.flush_zero_to_socket() {
             return;
         }
         self.expect_write = None;
@@ -5198,7 +5259,7 @@ impl<Front: SocketHandler> ConnectionH2<Front> {
                         endpoint,
                         H2Error::ProtocolError,
                     );
-                    self.remove_dead_stream(data.stream_id, global_stream_id);
+                    self.remove_dead_stream(data.stream_id, global_stream_id, context);
                     return result;
                 }
             }
@@ -5298,7 +5359,7 @@ impl<Front: SocketHandler> ConnectionH2<Front> {
                                 endpoint,
                                 H2Error::ProtocolError,
                             );
-                            self.remove_dead_stream(data.stream_id, global_stream_id);
+                            self.remove_dead_stream(data.stream_id, global_stream_id, context);
                             return result;
                         }
                     }
@@ -5386,7 +5447,7 @@ impl<Front: SocketHandler> ConnectionH2<Front> {
                     endpoint,
                     H2Error::ProtocolError,
                 );
-                self.remove_dead_stream(stream_id, global_stream_id);
+                self.remove_dead_stream(stream_id, global_stream_id, context);
                 return MuxResult::Continue;
             }
         }
@@ -5426,7 +5487,7 @@ impl<Front: SocketHandler> ConnectionH2<Front> {
             } else {
                 let result =
                     self.reset_stream(stream_id, global_stream_id, context, endpoint, error);
-                self.remove_dead_stream(stream_id, global_stream_id);
+                self.remove_dead_stream(stream_id, global_stream_id, context);
                 return result;
             }
         }
@@ -5451,7 +5512,7 @@ impl<Front: SocketHandler> ConnectionH2<Front> {
                             endpoint,
                             H2Error::ProtocolError,
                         );
-                        self.remove_dead_stream(stream_id, global_stream_id);
+                        self.remove_dead_stream(stream_id, global_stream_id, context);
                         return result;
                     }
                 }
@@ -5529,7 +5590,7 @@ impl<Front: SocketHandler> ConnectionH2<Front> {
                     endpoint,
                     H2Error::ProtocolError,
                 );
-                self.remove_dead_stream(priority.stream_id, global_stream_id);
+                self.remove_dead_stream(priority.stream_id, global_stream_id, context);
                 return result;
             } else {
                 error!(
@@ -5698,7 +5759,7 @@ impl<Front: SocketHandler> ConnectionH2<Front> {
             }
             // Retire from streams/prioriser/stream_last_activity_at and
             // invalidate expect_write/expect_read if they reference this gid.
-            self.remove_dead_stream(rst_stream.stream_id, global_stream_id);
+            self.remove_dead_stream(rst_stream.stream_id, global_stream_id, context);
         } else {
             self.attribute_bytes_to_overhead();
         }
@@ -5973,7 +6034,7 @@ impl<Front: SocketHandler> ConnectionH2<Front> {
             }
             // Retire from streams/prioriser/stream_last_activity_at and
             // invalidate expect_write/expect_read if they reference this gid.
-            self.remove_dead_stream(*stream_id, *global_stream_id);
+            self.remove_dead_stream(*stream_id, *global_stream_id, context);
         }
 
         // If no active streams remain, close immediately
@@ -6023,7 +6084,7 @@ impl<Front: SocketHandler> ConnectionH2<Front> {
                         endpoint,
                         H2Error::ProtocolError,
                     );
-                    self.remove_dead_stream(stream_id, global_stream_id);
+                    self.remove_dead_stream(stream_id, global_stream_id, context);
                     return result;
                 }
                 // Stream not in map (already closed) — treat as glitch
@@ -6130,7 +6191,7 @@ impl<Front: SocketHandler> ConnectionH2<Front> {
                     endpoint,
                     H2Error::FlowControlError,
                 );
-                self.remove_dead_stream(stream_id, global_stream_id);
+                self.remove_dead_stream(stream_id, global_stream_id, context);
                 return result;
             }
         } else {
@@ -6506,7 +6567,7 @@ impl<Front: SocketHandler> ConnectionH2<Front> {
                     // Retire the stream and invalidate expect_write/expect_read
                     // if they still reference this gid — the slot may be popped
                     // by `shrink_trailing_recycle` on the next create_stream.
-                    self.remove_dead_stream(id, stream_gid);
+                    self.remove_dead_stream(id, stream_gid, context);
                     if context.streams[stream_gid].state != StreamState::Recycle {
                         context.streams[stream_gid].state = StreamState::Unlinked;
                     }
